@@ -637,9 +637,6 @@ func Run(t *testing.T, cfg harness.Config, idx int, tp *tape.Tape) (res harness.
 				defer sim.TaskDone()
 				t.gid = runtime.VerifGID()
 				t.park = func(stage string) {
-					if os.Getenv("VSIM_DEBUG_POINTS") != "" {
-						fmt.Fprintf(os.Stderr, "PARK task%02d %s vclock=%d rate=%d budget=%d target=%s left=%d locks=%d\n", i, stage, t.vclock, t.rate, t.budget, t.target, t.targetLeft, runtime.VerifLocksHeld())
-					}
 					cur.Store(nil)
 					sim.Yield(fmt.Sprintf("task%02d:%s", i, stage))
 					cur.Store(t)
